@@ -237,6 +237,28 @@ CLAIMED = {
         technique='typestate / dominance analysis on constructor paths, '
                   'who-may-allocate and who-may-write rules, pairing of '
                   'registration and lookup'),
+    'C17': dict(
+        partial=True,
+        text='The recursion steps of apply (discovered from OBDD.apply), '
+             'restrict and negation are interpreted abstractly with the '
+             'recursive calls kept symbolic; each extracted step, with the '
+             'recursive calls replaced by their specification (induction '
+             'hypothesis), is checked on every pair of reduced ordered '
+             'diagrams over two variables and and/or/xor: right function, '
+             'the node built tests a variable earlier than everything below '
+             'it, recursive operands strictly smaller. Result caches are '
+             'keyed consistently; OBDD.apply is guarded by equality of '
+             'orderings (RuntimeError) and passes the roots in order; a '
+             'variable outside the ordering raises RuntimeError; &,|,^ pass '
+             'the matching operator. Reducedness follows from C16.',
+        ref='3-C17',
+        note='trusted: induction over operand size; step checked on all '
+             'operand pairs over 2 variables (quick) / a sample over 3 '
+             '(thorough); hash-consed construction (C16); variables() not '
+             'decided',
+        technique='abstract interpretation of one recursion step + '
+                  'inductive-step check of the extracted step against the '
+                  'Shannon-expansion specification on all small operands'),
     'C18': dict(
         partial=True,
         text='The expression parser of the OBDD module is interpreted '
